@@ -357,8 +357,11 @@ def export(sched, man):
     """model-side view of the scheduler state"""
     sg = sched.sgraph
     pool = {}
+    # attributes are read from the objects the traversal sees (what nx.topological_sort yields): for uncached
+    # ExternalItems these are per-parent copies that may differ from the node object in sgraph.items (see COPIES)
+    seen = {t.name: t for t in nx.topological_sort(sg._graph)}
     for it in sg.items:
-        pool[it.name] = export_item(it, sched)
+        pool[it.name] = export_item(seen.get(it.name, it), sched)
     files = {}
     firs = []
     for it in sg.items:
@@ -490,6 +493,14 @@ def real_run(sched, man, cf, entry):
     return probe.rec, err
 
 
+def copies(sched):
+    """names of graph nodes whose node object and the object yielded by the traversal disagree on is_ignored"""
+    sg = sched.sgraph
+    seen = {t.name: t for t in nx.topological_sort(sg._graph)}
+    return sorted(it.name for it in sg.items if it.name in seen and seen[it.name] is not it
+                  and seen[it.name].is_ignored != it.is_ignored)
+
+
 def real_filegraph(sched, man):
     flt = tuple(KINDS[k] for k in man['filter'])
     fg = sched.sgraph.as_filegraph(sched.item_factory, sched.config, item_filter=flt,
@@ -515,7 +526,7 @@ def run_case(req):
         if man['filegraph']:
             fg = real_filegraph(sched, man)
             resp.append([fg[0], fg[1], [list(e) for e in fg[2]]])
-        D = dict(rec=rec, err=err, exp=exp, proj=proj, cfg=cfg, man=man, cf=cf)
+        D = dict(rec=rec, err=err, exp=exp, proj=proj, cfg=cfg, man=man, cf=cf, copies=copies(sched))
         cls = {f.cls for f in check_property(D)}
         resp.append([A('known')] + [b(k in cls) for k in ('filegraph-cyclic', 'filegraph-mode-by-file',
                                                           'recurse-file-mode', 'filegraph-ignored-parent')])
@@ -670,6 +681,10 @@ def check_property(D):
     calls = [dict(meth=str(c[0]), plan=str(c[1]) == 'p', ir=c[2], item=c[3], role=dstr(c[4]), mode=dstr(c[5]),
                   targets=list(c[6]), items=None if isinstance(c[7], A) else list(c[7]), top=ob(c[8])) for c in rec]
     top = [c for c in calls if c['top']]
+    if D.get('copies'):
+        fails.append(Failure(f"external items {D['copies']} exist in several copies (one per caller, not cached) that disagree on "
+                             f"is_ignored; the traversal sees the copy of the caller that completes the in-degree, sgraph.items "
+                             f"another one, so whether strict mode raises depends on the visiting order", 'external-copy-attrs'))
     for c in calls:
         if c['plan'] != cf['plan']:
             fails.append(Failure(f"{c['meth']} call for {c['item']} used the {'plan' if c['plan'] else 'transform'} method"))
@@ -913,7 +928,8 @@ class C22(Prop):
         return check_property(run_case(req)[1])
 
     def classes(self):
-        return ['filegraph-cyclic', 'filegraph-mode-by-file', 'recurse-file-mode', 'filegraph-ignored-parent']
+        return ['filegraph-cyclic', 'filegraph-mode-by-file', 'recurse-file-mode', 'filegraph-ignored-parent',
+                'external-copy-attrs']
 
 
 PROP = C22()
